@@ -172,26 +172,52 @@ def _regen_eject(out, repo):
 UMIS = ['AAA', 'AAC', 'ACA', 'CCC', 'ANA', 'AAAA']
 
 
-def pre_py(absf, cfg):
+def _view(f, oracle):
+    """(contig, start, end) of an abstract fragment: as reported by the implementation, or the oracle span the harness
+    recomputed from pysam reference_start/reference_end"""
+    return tuple(f[9]) if oracle and len(f) > 9 else (f[4], f[5], f[6])
+
+
+def pre_py(absf, cfg, oracle=False):
     """python transcription of Model.C07.preb with the minimal L and lag; returns (holds, L, lag)"""
-    vs = [f for f in absf if f[1]]
-    L = max([f[6] - f[5] for f in vs] + [0])
+    vs = [_view(f, oracle) for f in absf if f[1]]
+    L = max([e - s_ for _, s_, e in vs] + [0])
     lag = 0
     for i, f in enumerate(vs):
         for h in vs[i + 1:]:
-            if h[4] == f[4]:
-                lag = max(lag, f[5] - h[5])
-    ok = all(f[4] != -1 and f[5] <= f[6] for f in vs)
-    # contigs in contiguous blocks
-    seen, cur = set(), None
-    for f in vs:
-        if f[4] != cur:
-            if f[4] in seen:
-                ok = False
-            seen.add(f[4])
-            cur = f[4]
+            if h[0] == f[0]:
+                lag = max(lag, f[1] - h[1])
+    ok = all(c != -1 and s_ <= e for c, s_, e in vs)
+    ok = ok and _blocks([c for c, _, _ in vs])
     ok = ok and cfg['radius'] >= 0 and 2 * (L + lag + cfg['radius']) <= cfg['cache']
     return ok, L, lag
+
+
+def _blocks(contigs):
+    seen, cur = set(), None
+    for c in contigs:
+        if c != cur:
+            if c in seen:
+                return False
+            seen.add(c)
+            cur = c
+    return True
+
+
+def wide_py(absf, cfg):
+    """the property's literal wording: coordinate-sorted arrival (max read start non-decreasing within a contig), contigs
+    in blocks, every valid fragment shorter than cache_size; evaluated on the oracle spans"""
+    vs = [f for f in absf if f[1]]
+    sp = [_view(f, True) for f in vs]
+    if not all(c != -1 and s_ <= e and e - s_ < cfg['cache'] for c, s_, e in sp) or not _blocks([c for c, _, _ in sp]):
+        return False
+    last = {}
+    for f, (c, _, _) in zip(vs, sp):
+        if len(f) > 10:
+            if f[10] < last.get(c, f[10]):
+                return False
+            last[c] = f[10]
+    return cfg['radius'] >= 0
 
 
 def partition(run):
@@ -283,6 +309,8 @@ class Prop(fw.PropBase):
             rev = rng.random() < 0.3
             spec = {'chrom': chrom, 'sm': rng.randrange(nsm), 'rx': rng.choice(umis), 'qcfail': rng.random() < 0.04,
                     'r1': [start, ln, rev], 'r2': None}
+            if ln >= 4 and rng.random() < 0.15:      # a deletion / reference skip inside the read
+                spec['r1'] = [start, ln, rev, rng.randint(1, ln - 2)]
             same = [f for f in frags[-5:] if f['chrom'] == chrom and f['r2'] is None and not f['qcfail']]
             u = rng.random()
             if same and u < 0.2:      # an exact PCR duplicate of a recent fragment
@@ -343,6 +371,93 @@ class Prop(fw.PropBase):
         base = {'cache': cache, 'radius': radius, 'hd': 0, 'yield_invalid': False}
         return {'frags': frs, 'cls': rng.choice(['Fragment', 'HashedFragment']), 'cfgs': self.all_schedules(base, len(frs))}
 
+    def gen_nonprefix(self, rng):
+        """the ejectable set is not a prefix of the buffer: a long molecule is buffered first, a short unrelated one after
+        it, a check fires where only the short one can be yielded, then fragments anchored at the END of the long molecule
+        (and copies of the others) arrive"""
+        cache = rng.choice([40, 100])
+        half = cache // 2
+        s0 = 1000
+        mk = lambda st, en, rx, sm=0: {'chrom': 0, 'sm': sm, 'rx': rx, 'qcfail': False, 'r1': [st, max(1, en - st), False], 'r2': None}
+        lL = rng.choice([half, half - 1, half - 3])
+        a, b, d = rng.choice([0, 1, 2]), rng.choice([1, 2, 3]), rng.choice([1, 2, 3])
+        long_, short = (s0, s0 + lL), (s0 + a, s0 + a + b)
+        T = short[1] + half + d                      # > short end + cache/2, <= long end + cache/2
+        g = (max(short[0], T - half), T)
+        frs = [mk(long_[0], long_[1], 'AAA'), mk(short[0], short[1], 'CCC'), mk(g[0], g[1], rng.choice(['ACA', 'CCC']))]
+        if rng.random() < 0.3:
+            frs.insert(1, mk(long_[0], long_[0] + rng.choice([2, 5]), 'AAA'))       # a second member, same start
+        if g[0] < long_[1]:
+            for _ in range(rng.choice([1, 1, 2])):
+                frs.append(mk(rng.randint(g[0], long_[1] - 1), long_[1], 'AAA'))    # joins the long molecule through its end
+        if rng.random() < 0.4:
+            frs.append(dict(frs[2], r1=list(frs[2]['r1'])))
+        frs[3:] = sorted(frs[3:], key=lambda f: f['r1'][0])
+        base = {'cache': cache, 'radius': 0, 'hd': 0, 'yield_invalid': False}
+        return {'frags': frs, 'cls': rng.choice(['Fragment', 'Fragment', 'HashedFragment']), 'cfgs': self.all_schedules(base, len(frs))}
+
+    def gen_long_insert(self, rng):
+        """a molecule at the stream position, then a read pair with a long insert (shorter than cache_size) whose span
+        starts more than cache_size/2 upstream while its second mate arrives at the stream position, then a fragment
+        anchored at the molecule's end"""
+        cache = rng.choice([40, 100])
+        half = cache // 2
+        s0 = 1000
+        lm = rng.choice([5, 8, 10])
+        k, a = rng.choice([1, 2, 4]), rng.choice([1, 2, 3])
+        frs = [{'chrom': 0, 'sm': 0, 'rx': 'AAA', 'qcfail': False, 'r1': [s0, lm, False], 'r2': None}]
+        if rng.random() < 0.3:
+            frs.append({'chrom': 0, 'sm': 0, 'rx': 'AAA', 'qcfail': False, 'r1': [s0, rng.choice([2, 3]), False], 'r2': None})
+        frs.append({'chrom': 0, 'sm': rng.choice([0, 1]), 'rx': 'CCC', 'qcfail': False,
+                    'r1': [s0 - half - k, 2, False], 'r2': [s0 + a, 2, True]})
+        for _ in range(rng.choice([1, 1, 2])):
+            st = rng.randint(s0 + a, s0 + lm - 1)
+            frs.append({'chrom': 0, 'sm': 0, 'rx': 'AAA', 'qcfail': False, 'r1': [st, s0 + lm - st, False], 'r2': None})
+        base = {'cache': cache, 'radius': 0, 'hd': 0, 'yield_invalid': False}
+        return {'frags': frs, 'cls': rng.choice(['Fragment', 'HashedFragment']), 'cfgs': self.all_schedules(base, len(frs))}
+
+    def gen_chic(self, rng):
+        """CHICFragment/CHICMolecule (site anchored: forward fragments share the start, reverse fragments the end), reads
+        with deletions; half of the libraries are directed: a reverse molecule built from a read with a deletion, an
+        unrelated fragment ending just below molecule end + cache_size/2, then a short copy of the molecule"""
+        cache = rng.choice([40, 100])
+        half = cache // 2
+        frs = []
+        if rng.random() < 0.5:
+            s0 = 1000
+            l1 = rng.randint(half - 8, half)
+            d = rng.randint(3, l1 - 4)
+            me = s0 + l1
+            T = me + half - rng.randint(1, d)
+            frs.append({'chrom': 0, 'sm': 0, 'rx': 'AAA', 'qcfail': False, 'r1': [s0, l1, True, d], 'r2': None})
+            frs.append({'chrom': 0, 'sm': 1, 'rx': 'CCC', 'qcfail': False, 'r1': [T - half, half, False], 'r2': None})
+            st = rng.randint(T - half, me - 1)
+            frs.append({'chrom': 0, 'sm': 0, 'rx': 'AAA', 'qcfail': False, 'r1': [st, me - st, True], 'r2': None})
+        else:
+            sites = [rng.randrange(1000, 1000 + 3 * cache) for _ in range(2)]
+            used = set()
+            for g in range(rng.randint(1, 4)):
+                chrom, rev, sm, rx, site = rng.choice([0, 0, 0, 1]), rng.random() < 0.6, rng.randrange(2), rng.choice(['AAA', 'CCC']), rng.choice(sites)
+                if (chrom, rev, sm, rx, site) in used:
+                    continue
+                used.add((chrom, rev, sm, rx, site))
+                for _ in range(rng.randint(1, 3)):
+                    ln = rng.choice([rng.randint(4, 12), rng.randint(half - 8, half), half])
+                    r1 = [site - ln if rev else site, ln, rev]
+                    if ln >= 10 and rng.random() < 0.3:
+                        r1.append(rng.randint(1, ln - 6))
+                    frs.append({'chrom': chrom, 'sm': sm, 'rx': rx, 'qcfail': False, 'r1': r1, 'r2': None})
+            rng.shuffle(frs)
+            frs.sort(key=lambda f: (f['chrom'], f['r1'][0]))
+        base = {'cache': cache, 'radius': 0, 'hd': 0, 'yield_invalid': False}
+        return {'frags': frs, 'cls': 'CHIC', 'cfgs': self.all_schedules(base, len(frs))}
+
+    def directed(self, rng, n):
+        out = []
+        for k in range(n):
+            out.append([self.gen_scenario, self.gen_nonprefix, self.gen_long_insert, self.gen_chic][k % 4](rng))
+        return out
+
     @staticmethod
     def all_schedules(base, n):
         return [dict(base, every=e, pooling=p) for p in (0, 1) for e in [None] + list(range(0, n + 1))]
@@ -400,8 +515,7 @@ class Prop(fw.PropBase):
             n = self.rng.choice([2, 3, 4, 5, 6, 8, 10] if quick else [2, 3, 4, 5, 6, 7, 8, 10, 14, 20])
             regime = ['pre', 'pre', 'prelag', 'wild'][k % 4]
             out.append(self.gen_case(self.rng, n, regime))
-        for k in range(150 if quick else 2000):
-            out.append(self.gen_scenario(self.rng))
+        out += self.directed(self.rng, 320 if quick else 4000)
         ex = self.small_exhaustive(3 if quick else 4) + self.small_exhaustive_rel(3 if quick else 4)
         self.n_exhaustive = len(ex)
         return out + ex
@@ -426,8 +540,21 @@ class Prop(fw.PropBase):
         pool_example = None
         gap = {'runs': 0, 'schedule_dependent_runs': 0, 'example': None}
         pre_inputs = []
+        span_dis, spec_viol, n_spec_only, n_del = [], [], 0, 0
         for ci, (case, r) in enumerate(zip(cases, res)):
             absf = r['abs']
+            n_del += sum(1 for f in case['frags'] for k in ('r1', 'r2') if f[k] and len(f[k]) > 3 and f[k][3] > 0)
+            # the span the implementation reports against the span recomputed from pysam (reads with D in the CIGAR included)
+            for f in absf:
+                if f[1] and list(f[4:7]) != list(f[9]):
+                    span_dis.append({'frag': case['frags'][f[0]], 'cls': case['cls'], 'implementation_span': f[4:7],
+                                     'pysam_span': f[9]})
+            for v in spec_violations(case, r):
+                spec_viol.append((len(case['frags']), v[0], v[1], case['frags'], case['cls'], v[2]))
+            if case['cls'] == 'CHIC':
+                # CHICFragment/CHICMolecule: outside the Coq model (site-keyed match rule); specification only
+                n_spec_only += len(case['cfgs'])
+                continue
             hist_n[len(absf)] = hist_n.get(len(absf), 0) + 1
             never = {cfg['pooling']: partition(run) for cfg, run in zip(case['cfgs'], r['runs']) if cfg['every'] is None}
             if len(never) == 2 and never[0] != never[1]:
@@ -436,7 +563,7 @@ class Prop(fw.PropBase):
                     pool_example = {'abs': absf, 'cfg': case['cfgs'][0], 'pooling0': [list(x) for x in never[0]],
                                     'pooling1': [list(x) for x in never[1]]}
             for cfg, run in zip(case['cfgs'], r['runs']):
-                inp = [cfg_val(cfg), fw.to_val(absf)]
+                inp = [cfg_val(cfg), fw.to_val([f[:9] for f in absf])]
                 inputs.append(inp)
                 impl_out.append(canon_run(run, absf))
                 index.append((ci, cfg))
@@ -461,7 +588,7 @@ class Prop(fw.PropBase):
                 if ej and multi:
                     nontrivial.add(fw.canon_hash(inp))
         self.cov.update({
-            'evaluations': len(inputs),
+            'evaluations': len(inputs) + n_spec_only,
             'distinct_nontrivial': len(nontrivial),
             'rule': 'one evaluation = one (library, configuration) run of the real MoleculeIterator compared step by step '
                     '(molecules yielded after each consumed read pair, then the flush; members in order, sample, strand, '
@@ -470,6 +597,10 @@ class Prop(fw.PropBase):
             'libraries': len(cases), 'corpus_libraries': self.n_corpus, 'exhaustive_small_libraries': self.n_exhaustive,
             'runs_with_ejection_before_flush': n_ejecting, 'runs_with_multi_fragment_molecule': n_multi,
             'runs_raising': n_err,
+            'spec_only_runs_CHICFragment_CHICMolecule': n_spec_only,
+            'reads_with_deletion_in_cigar': n_del,
+            'span_oracle_disagreements': len(span_dis),
+            'specification_violations_on_implementation_outputs': len(spec_viol),
             'info_libraries_where_pooling_0_and_1_differ_without_ejection': n_pool_differ,
             'info_pooling_difference_example': pool_example,
             'info_gap_start_sorted_inequality_fails_but_L_below_cache_size': gap,
@@ -484,6 +615,14 @@ class Prop(fw.PropBase):
             'samples': [{'input': {'cfg': index[i][1], 'abs': res[index[i][0]]['abs']}, 'impl': impl_out[i]}
                         for i in (0, len(inputs) // 2, len(inputs) - 1) if i < len(inputs)],
         })
+        self.span_dis, self.spec_viol = span_dis, spec_viol
+        if span_dis:
+            self.breaks.append(('correspondence', 'abstraction: Fragment.get_span() differs from the span recomputed from pysam '
+                                'reference_start/reference_end for %d fragments; first: %s' % (len(span_dis), json.dumps(span_dis[0]))))
+        if spec_viol:
+            v = min(spec_viol, key=lambda x: x[0])
+            self.breaks.append(('specification', '%d runs of the implementation violate the specification; smallest: %s: %s; '
+                                'reads %s (%s)' % (len(spec_viol), v[1], v[2], json.dumps(v[3]), v[4])))
         if not self.model_ok:
             return
         mout = fw.run_model('C07', 0, inputs)
@@ -538,13 +677,33 @@ def spec_violations(case, res):
         if got != wanted:
             out.append(('emit-once', 'fragments yielded %r, fragments expected exactly once %r' % (got, wanted), cfg))
             continue
-        ok, L, lag = pre_py(absf, cfg)
+        ok, L, lag = pre_py(absf, cfg, oracle=True)
         if not ok:
+            # outside the inequality but inside the property's wording: a molecule that was yielded although the documented
+            # rule (can_be_yielded on the true spans: other contig, or the END of the current fragment beyond the molecule's
+            # span by more than cache_size/2) did not allow it, and that a later fragment still joins
+            if wide_py(absf, cfg):
+                for late in run['late']:
+                    if late[0] == 'error':
+                        continue
+                    t, ids, k = late
+                    gc, gs, ge = _view(absf[t], True)
+                    mem = [_view(absf[i], True) for i in ids]
+                    ms, me = min(x[1] for x in mem), max(x[2] for x in mem)
+                    justified = any(x[0] != gc for x in mem) or 2 * ge < 2 * ms - cfg['cache'] or 2 * ge > 2 * me + cfg['cache']
+                    if not justified:
+                        out.append(('early-ejection-not-justified-by-can_be_yielded',
+                                    'check_eject_every=%r pooling_method=%d cache_size=%d: molecule %r (span %d-%d) was yielded '
+                                    'while read %d (span %d-%d, same contig, end within cache_size/2 of the molecule) was '
+                                    'processed, and the later read %d still joins it; never ejecting gives %r'
+                                    % (cfg['every'], cfg['pooling'], cfg['cache'], ids, ms, me, t, gs, ge, k,
+                                       [list(x) for x in base.get(cfg['pooling'], [])]), cfg))
+                        break
             continue
         p0 = base.get(cfg['pooling'])
         pe = partition(run)
         if p0 is not None and pe != p0:
-            ncontig = len(set(f[4] for f in absf if f[1]))
+            ncontig = len(set(_view(f, True)[0] for f in absf if f[1]))
             out.append(('partition-depends-on-schedule:%s' % ('one-contig' if ncontig <= 1 else 'several-contigs'),
                         'check_eject_every=%r gives molecules %r but never ejecting gives %r (pooling_method=%d, cache_size=%d, '
                         'assignment_radius=%d, L=%d, lag=%d)' % (cfg['every'], [list(x) for x in pe], [list(x) for x in p0],
@@ -575,7 +734,7 @@ def _search(self):
         rng = random.Random(self.seed * 7919 + 17)
         extra = [self.gen_case(rng, rng.choice([4, 5, 6, 7]), rng.choice(['pre', 'pre', 'prelag']))
                  for _ in range(600 if self.tier == 'quick' else 3000)]
-        extra += [self.gen_scenario(rng) for _ in range(1500 if self.tier == 'quick' else 6000)]
+        extra += self.directed(rng, 2000 if self.tier == 'quick' else 8000)
         rs = self.run_impl_cases(extra)
         for case, r in zip(extra, rs):
             n_checked += len(case['cfgs'])
